@@ -153,8 +153,79 @@ func c19R1(p *core.Prog, r *core.Report) {
 		r.Undecided(rule, "-", "mutator floor", "-", fmt.Sprintf("only %d primitive mutators found (state-changing request builders and layout writers); 13 on the tree the rule was written for", len(prim)))
 	}
 	bindings := luaBindings(p)
-	gated := func(site ssa.Instruction) bool {
+	gatedDirect := func(site ssa.Instruction) bool {
 		return anyGuard(site.Block(), func(c ssa.Value, pol bool) bool { return notDryRunEdge(c, pol, n, f) })
+	}
+	// gate runners: functions of the sandbox package that are handed the change as a function value
+	// and call it only behind the gate (`func (s *Sandbox) apply(change func()) { if s.dryRun { return }; change() }`)
+	runners := map[*ssa.Function]map[int]bool{}
+	for _, g := range pkgFuncs(p, sandboxRel) {
+		for i, prm := range g.Params {
+			if _, isSig := prm.Type().Underlying().(*types.Signature); !isSig || prm.Referrers() == nil {
+				continue
+			}
+			calls, ok := 0, true
+			for _, u := range *prm.Referrers() {
+				switch x := u.(type) {
+				case ssa.CallInstruction:
+					if x.Common().Value == prm && gatedDirect(x.(ssa.Instruction)) {
+						calls++
+					} else {
+						ok = false
+					}
+				case *ssa.DebugRef:
+				default:
+					ok = false
+				}
+			}
+			if ok && calls > 0 {
+				if runners[g] == nil {
+					runners[g] = map[int]bool{}
+				}
+				runners[g][i] = true
+			}
+		}
+	}
+	gated := func(site ssa.Instruction) bool {
+		if gatedDirect(site) {
+			return true
+		}
+		// a function literal whose only use is to be handed to a gate runner
+		mc, ok := site.(*ssa.MakeClosure)
+		if !ok || mc.Referrers() == nil {
+			return false
+		}
+		uses := 0
+		for _, u := range *mc.Referrers() {
+			c, isCall := u.(ssa.CallInstruction)
+			if !isCall {
+				if _, isDbg := u.(*ssa.DebugRef); isDbg {
+					continue
+				}
+				return false
+			}
+			g := core.CalleeFn(c)
+			if g == nil || runners[g] == nil {
+				return false
+			}
+			args := c.Common().Args
+			off := len(g.Params) - len(args) // receiver is part of Params and of Args for static method calls
+			found := false
+			for j, a := range args {
+				if a == ssa.Value(mc) {
+					if runners[g][j+off] {
+						found = true
+					} else {
+						return false
+					}
+				}
+			}
+			if !found {
+				return false
+			}
+			uses++
+		}
+		return uses > 0
 	}
 	maxVisited := 0
 	for _, b := range bindings {
@@ -390,60 +461,80 @@ func c19R3(p *core.Prog, r *core.Report) {
 	if run == nil {
 		r.MissingAnchor(rule, sandboxRel+".(*Sandbox).RunScript")
 	} else {
-		ok := false
-		core.Calls(run, func(c ssa.CallInstruction) {
-			d, isDefer := c.(*ssa.Defer)
-			if !isDefer {
-				return
+		// the function that hands the script to the interpreter: RunScript itself or a helper it calls
+		isInterp := func(c ssa.CallInstruction) bool {
+			f := core.Callee(c)
+			return f != nil && f.Pkg() != nil && f.Pkg().Path() == "github.com/yuin/gopher-lua" && (f.Name() == "DoString" || f.Name() == "DoFile" || f.Name() == "PCall" || f.Name() == "Call")
+		}
+		var runners []*ssa.Function
+		for _, h := range sortedFuncs(unitFuncs(run, 2, nil)) {
+			if pk := core.FuncPkg(h); pk == nil || pk.Path() != modPath(sandboxRel) {
+				continue
 			}
-			lit := closureOf(d.Call.Value)
-			if lit == nil || lit.Parent() == nil {
-				// a deferred method or function of the module that recovers itself and writes the error
-				// through a pointer it is given
-				if g := d.Call.StaticCallee(); g != nil && p.InModule(g) && len(g.Blocks) > 0 {
-					rec, sto := false, false
-					for _, b := range g.Blocks {
-						for _, in := range b.Instrs {
-							if call, ok := in.(*ssa.Call); ok {
-								if bi, ok := call.Call.Value.(*ssa.Builtin); ok && bi.Name() == "recover" {
-									rec = true
-								}
-							}
-							if st, ok := in.(*ssa.Store); ok {
-								if pr, ok := st.Addr.(*ssa.Parameter); ok {
-									if pt, ok := pr.Type().Underlying().(*types.Pointer); ok && types.Identical(pt.Elem(), types.Universe.Lookup("error").Type()) {
-										sto = true
+			found := false
+			core.Calls(h, func(c ssa.CallInstruction) {
+				if isInterp(c) {
+					found = true
+				}
+			})
+			if found {
+				runners = append(runners, h)
+			}
+		}
+		// a function recovers when it defers a literal (or a module function) that calls recover, uses
+		// the result, and stores into a variable of the deferring function (or through a pointer given)
+		recoversIn := func(g *ssa.Function) bool {
+			rec, sto := false, false
+			for _, b := range g.Blocks {
+				for _, in := range b.Instrs {
+					if call, ok := in.(*ssa.Call); ok {
+						if bi, ok := call.Call.Value.(*ssa.Builtin); ok && bi.Name() == "recover" {
+							if refs := call.Referrers(); refs != nil {
+								for _, u := range *refs {
+									if _, isDbg := u.(*ssa.DebugRef); !isDbg {
+										rec = true
 									}
 								}
 							}
 						}
 					}
-					if rec && sto {
-						ok = true
-					}
-				}
-				return
-			}
-			recovers, stores := false, false
-			for _, b := range lit.Blocks {
-				for _, in := range b.Instrs {
-					if call, ok := in.(*ssa.Call); ok {
-						if bi, ok := call.Call.Value.(*ssa.Builtin); ok && bi.Name() == "recover" {
-							recovers = true
-						}
-					}
 					if st, ok := in.(*ssa.Store); ok {
-						if fv, ok := st.Addr.(*ssa.FreeVar); ok && types.Identical(fv.Type().(*types.Pointer).Elem(), types.Universe.Lookup("error").Type()) {
-							stores = true
+						switch a := st.Addr.(type) {
+						case *ssa.FreeVar:
+							sto = true
+						case *ssa.Parameter:
+							if _, isPtr := a.Type().Underlying().(*types.Pointer); isPtr {
+								sto = true
+							}
 						}
 					}
 				}
 			}
-			if recovers && stores {
-				ok = true
+			return rec && sto
+		}
+		ok := len(runners) > 0
+		for _, h := range runners {
+			has := false
+			core.Calls(h, func(c ssa.CallInstruction) {
+				d, isDefer := c.(*ssa.Defer)
+				if !isDefer {
+					return
+				}
+				if lit := closureOf(d.Call.Value); lit != nil && lit.Parent() != nil {
+					if recoversIn(lit) {
+						has = true
+					}
+					return
+				}
+				if g := d.Call.StaticCallee(); g != nil && p.InModule(g) && len(g.Blocks) > 0 && recoversIn(g) {
+					has = true
+				}
+			})
+			if !has {
+				ok = false
 			}
-		})
-		r.Check(ok, rule, p.FuncName(run), "deferred recover", p.Pos(run.Pos()), "a Lua runtime error or a Go panic inside a binding must end this script only: defer func(){ if r := recover(); r != nil { err = … } }()")
+		}
+		r.Check(ok, rule, p.FuncName(run), "deferred recover", p.Pos(run.Pos()), "a Lua runtime error or a Go panic inside a binding must end this script only: the function that hands the script to the interpreter defers a function that calls recover, looks at the result and records it (defer func(){ if r := recover(); r != nil { err = … } }())")
 	}
 	process := p.Method("cmd/regbot", "rootOpts", "process")
 	if process == nil {
